@@ -6,11 +6,11 @@
    physical expression), Gen/GenFunctions.v (the descriptor table generated from FunctionMap()).
 
    FULL STATEMENT (kept here; only partly proved, see C08_expr_partial):
-     forall env e pe ctx v,  tc function_table env e = TcOk pe -> ctx_conforms ctx env = true ->
+     forall env e pe ctx v,  tc type_inter_aliasing function_table env e = TcOk pe -> ctx_conforms ctx env = true ->
                              peval ctx pe = Ok v -> has_type v (ptype pe) = true
      and the same for aggregates (logical/group_by.go) and whole plans (outer-join nullability).
    PROVED: the statement with "pe is locally well-typed (pwt env pe = true)" in place of "tc produced pe", for
-   every physical expression; plus, per row of the generated table, that the declared OutputType admits what the
+   every physical expression; plus, per row of the generated table, that the declared OutputType allows what the
    modelled body returns.  MISSING: the lemma  tc ... = TcOk pe -> pwt env pe = true  (in particular for the
    Maybe pass with accumulated assertions); it is CHECKED instead, on every run, for every physical expression
    the real typechecker produces on the generated cases (check tie_pwt), and [tc] itself is compared with the
@@ -22,8 +22,8 @@ From Octo Require Import Expr ExprProofs ExprTc ExprTcProofs ExprTcTableProofs G
 From Octo Require Import ExprTcCases.   (* the case formats / oracles of the engine's cases.v: kept built with this file *)
 
 (* A locally well-typed physical expression, evaluated on a variable context whose current record conforms to
-   the column types, yields a value its static type admits — or fails (error / panic), never an ill-typed
-   value.  In particular NULL only if the static type admits NULL.  All expressions of the modelled language,
+   the column types, yields a value its static type allows — or fails (error / panic), never an ill-typed
+   value.  In particular NULL only if the static type allows NULL.  All expressions of the modelled language,
    any depth, any argument count; calls only of descriptors whose body is modelled (pwt requires it). *)
 Theorem C08_expr_partial : forall env ctx e v,
   ctx_conforms ctx env = true -> pwt env e = true ->
@@ -32,15 +32,15 @@ Proof. intros env ctx e v Hc W. exact (pwt_sound env ctx Hc e W v). Qed.
 Print Assumptions C08_expr_partial.
 
 (* One obligation per row of the generated table: for every descriptor whose body is modelled, the declared
-   OutputType admits every kind of value the body can return (for int(Int) / float(Float), which return their
-   argument: the declared argument type is admitted by the OutputType).  Fails to build if a descriptor's
+   OutputType allows every kind of value the body can return (for int(Int) / float(Float), which return their
+   argument: the declared argument type is allowed by the OutputType).  Fails to build if a descriptor's
    OutputType is narrowed, or (pinned tree) for int(String): the body returns NULL on a failed parse. *)
 Theorem C08_descriptors : forallb (fun d => implb (desc_claimed d) (row_output_ok d)) function_table = true.
 Proof. exact table_outputs_ok. Qed.
 Print Assumptions C08_descriptors.
 
 (* A call typed the way FunctionExpression.Typecheck types it — OutputType of the chosen descriptor, plus NULL
-   when the descriptor is Strict and some argument's static type admits NULL — is sound for every modelled
+   when the descriptor is Strict and some argument's static type allows NULL — is sound for every modelled
    fixed-kind descriptor of the table, whatever the (well-typed) arguments are. *)
 Theorem C08_call : forall env ctx d args ks,
   In d function_table -> desc_modelled d = true -> body_result_kinds (body_of d) = Some ks ->
@@ -51,7 +51,7 @@ Proof. exact table_call_sound. Qed.
 Print Assumptions C08_call.
 
 (* "Functions whose declared result is non-nullable never return NULL": a modelled descriptor of the table
-   whose OutputType does not admit NULL returns a non-NULL value on non-NULL arguments. *)
+   whose OutputType does not allow NULL returns a non-NULL value on non-NULL arguments. *)
 Theorem C08_non_nullable_result : forall ctx d args vs v t,
   In d function_table -> desc_modelled d = true -> has_kind K_NULL (fd_out d) = false ->
   pevals ctx args = Ok vs -> Forall (fun x => is_null x = false) vs ->
@@ -60,7 +60,7 @@ Proof. exact table_non_nullable_result. Qed.
 Print Assumptions C08_non_nullable_result.
 
 (* The pinned tree declared int(String) : Int.  Its body returns NULL on a failed parse: with a non-NULL
-   String argument the result is not admitted by Int.  (Fixed by declaring TypeSum(Int, Null); float(String)
+   String argument the result is not allowed by Int.  (Fixed by declaring TypeSum(Int, Null); float(String)
    likewise — its body, strconv.ParseFloat, is not modelled; the engine reproduces it.) *)
 Theorem C08_pinned_int_of_string_refuted :
   exists vs v, Forall2 (fun x t => has_type x t = true) vs [STSet [K_STR]] /\
@@ -71,12 +71,12 @@ Print Assumptions C08_pinned_int_of_string_refuted.
 
 (* Non-vacuity: over columns (Int | NULL, Boolean | Int | NULL) the model typechecks  c0 + 1 > 2 AND c1  into a
    locally well-typed expression (with a type assertion on c1), of type Boolean | NULL; on the conforming row
-   (NULL, TRUE) it evaluates to NULL, which that type admits. *)
+   (NULL, TRUE) it evaluates to NULL, which that type allows. *)
 Local Open Scope string_scope.
 Example C08_hypotheses_satisfiable :
   let env := [STSet [0; 1]; STSet [0; 1; 3]] in
   let e := LAnd (LCall ">" [LCall "+" [LVar 0; LConst (VInt 1)]; LConst (VInt 2)]) (LVar 1) in
-  exists pe, tc function_table env e = TcOk pe /\ pwt env pe = true /\ pmodelled pe = true /\
+  exists pe, tc type_inter_aliasing function_table env e = TcOk pe /\ pwt env pe = true /\ pmodelled pe = true /\
              sty_eqb (ptype pe) (STSet [0; 3]) = true /\
              ctx_conforms [[VNull; VBool true]] env = true /\ peval [[VNull; VBool true]] pe = Ok VNull.
 Proof. eexists. split; [vm_compute; reflexivity|]. vm_compute. repeat split; reflexivity. Qed.
